@@ -48,4 +48,24 @@ CHECKS = {
         trusted_base=TB,
         assumptions=["usize is 64 bit on the analysis host"],
     ),
+    "C14": dict(
+        packs=["c14"], level="other",
+        explanation="R14.1 table check over every MonoFont constant as evaluated by rustc's const evaluator (atlas size, character size, data length, glyph count of the expanded NUL-marker mapping and replacement index versus the number of cells, unique characters): decides the clause 'each mapped character has its own index whose cell lies completely inside the font image' for every built-in font. "
+                    "R14.2 decoration pairing and width, R14.3 colour roles of the three MonoFontDrawTarget flavours and their construction in draw_string, R14.4 the two decoders of the mapping grammar and index(), R14.5 glyph() cell arithmetic and guards, who-may-call SubImage::new_unchecked.",
+        claim="Decides the built-in font/mapping table clause for all fonts and the structural wiring of glyph lookup, colour roles and decorations; not the per-character advance arithmetic nor the bitmap contents.",
+        note="Necessary conditions plus one exhaustive table clause; trusted: rustc const evaluation of the font constants, the checker's own copy of the documented mapping grammar (cross-checked against the two in-tree decoders by R14.4).",
+        technique="constant-table lint over compiler-evaluated consts + origin-tree/decision-table comparison over MIR",
+        trusted_base=TB,
+        assumptions=[],
+    ),
+    "C02": dict(
+        packs=["c02"], level="other",
+        explanation="R02.1 the text box height covers the glyph cell and the underline on every path of measure_string (with the table obligation over all built-in fonts where the code relies on it), R02.2 decoration/baseline table over every MonoFont constant, "
+                    "R02.3 the six closed shapes grow their box by exactly stroke_area's growth, R02.4 min/max pairing of the text union and same (line, position) pairs for measuring and drawing, R02.5 the thick-segment box spans exactly the end points of the rasterised edges.",
+        claim="Decides the font-table clauses for all built-in fonts and the structural wiring of styled/text/thick-segment boxes; pixel-exact containment for lines, triangles and polylines (join arithmetic) is not decided.",
+        note="Necessary conditions; trusted: rustc const evaluation of font constants; equivalent-but-different arithmetic is reported as undecided.",
+        technique="constant-table lint + origin-tree comparison and decision extraction over MIR",
+        trusted_base=TB,
+        assumptions=[],
+    ),
 }
